@@ -608,3 +608,142 @@ func runReplicate1(c *vkit.Case, p rPlan) {
 		r.Sample(map[string]any{"case": c.ID(), "function": "chans.Replicate", "plan": p, "each_destination_received": showVals(vals), "return_tick": ret})
 	}
 }
+
+// ---------------------------------------------------------------------------------------------
+// Replicate read in rounds: item k from every destination before item k+1 from any, by one
+// goroutine going round-robin over unbuffered destinations, or by lock-step consumers with a
+// barrier per item. The source is a buffered channel with several items already in it when
+// Replicate starts, or is fed item by item.
+
+func replicateDiscCase(c *vkit.Case) {
+	if c.R.NViolations() >= maxViolations {
+		return
+	}
+	isolated(func() { replicateDisc1(c) })
+}
+
+func replicateDisc1(c *vkit.Case) {
+	r := c.R
+	rnd := c.Rand
+	lockStep := c.Index%2 == 1
+	nd := rnd.Range(2, 5)
+	n := rnd.Range(2, 10)
+	srcCap, prefill := 0, 0
+	if (c.Index/2)%3 != 2 { // two thirds: buffered source with items already in it
+		srcCap = rnd.Range(2, 8)
+		prefill = rnd.Range(2, srcCap)
+		if prefill > n {
+			prefill = n
+		}
+	} else if rnd.Bool(0.5) {
+		srcCap = 1
+	}
+	disc := "one goroutine, round-robin"
+	if lockStep {
+		disc = "lock-step consumers"
+	}
+	witness := map[string]any{"function": "chans.Replicate", "consumer_discipline": disc, "destinations_unbuffered": nd, "values": n, "src_cap": srcCap, "values_in_src_before_Replicate_starts": prefill}
+	clock := &vkit.Clock{}
+	gs := newGset()
+	gs.add()
+	vals := make([]uint64, n)
+	for i := range vals {
+		vals[i] = mkval(0, i)
+	}
+	src := make(chan uint64, srcCap)
+	for _, v := range vals[:prefill] {
+		src <- v
+	}
+	var closeCall atomic.Int64
+	var pwg sync.WaitGroup
+	pwg.Add(1)
+	go producer(gs, clock, src, vals[prefill:], vkit.NewPerturber(rnd, 16, vkit.Pick(rnd, []float64{0, 0, 0.15, 0.4})), rnd.Intn(2), &closeCall, &pwg)
+	dsts := make([]chan uint64, nd)
+	so := make([]chan<- uint64, nd)
+	gots := make([][]uint64, nd)
+	for d := range dsts {
+		dsts[d] = make(chan uint64)
+		so[d] = dsts[d]
+	}
+	var cwg sync.WaitGroup
+	if lockStep {
+		rounds := make([]chan struct{}, n)
+		arrived := make([]atomic.Int64, n)
+		for k := range rounds {
+			rounds[k] = make(chan struct{})
+		}
+		for d := 0; d < nd; d++ {
+			cwg.Add(1)
+			pert := vkit.NewPerturber(rnd, 16, vkit.Pick(rnd, []float64{0, 0.15, 0.4}))
+			go func(d int) {
+				defer cwg.Done()
+				gs.add()
+				for k := 0; k < n; k++ {
+					pert.Do()
+					gots[d] = append(gots[d], <-dsts[d])
+					if arrived[k].Add(1) == int64(nd) {
+						close(rounds[k])
+					}
+					<-rounds[k]
+				}
+			}(d)
+		}
+	} else {
+		cwg.Add(1)
+		pert := vkit.NewPerturber(rnd, 16, vkit.Pick(rnd, []float64{0, 0, 0.15, 0.4}))
+		go func() {
+			defer cwg.Done()
+			gs.add()
+			for k := 0; k < n; k++ {
+				for d := 0; d < nd; d++ {
+					pert.Do()
+					gots[d] = append(gots[d], <-dsts[d])
+				}
+			}
+		}()
+	}
+	var pn *vkit.Panic
+	var repRet atomic.Int64
+	all := make(chan struct{})
+	go func() {
+		defer close(all)
+		gs.add()
+		pn = vkit.Try(func() { chans.Replicate((<-chan uint64)(src), so...) })
+		repRet.Store(clock.Tick())
+		cwg.Wait()
+	}()
+	r.Eval(1)
+	verdict, dump := vkit.Await(all, vkit.AwaitOpts{Relevant: gs.relevant})
+	switch verdict {
+	case vkit.AwaitStuck:
+		witness["goroutines"] = trunc(dump, 8000)
+		c.Violation("replicate-stuck", fmt.Sprintf("chans.Replicate of %d values (%d already buffered in src) to %d unbuffered destinations read in rounds (%s) deadlocked: every goroutine of the case is parked for good", n, prefill, nd, disc), witness)
+		return
+	case vkit.AwaitInconclusive:
+		r.Inconclusive(fmt.Sprintf("%s: chans.Replicate (readers in rounds) had not finished after the hard limit but something was still runnable", c.ID()))
+		return
+	}
+	pwg.Wait()
+	if pn != nil {
+		c.Violation("replicate-panic", "chans.Replicate panicked: "+pn.Msg, witness)
+		return
+	}
+	r.Eval(1)
+	if cc, ret := closeCall.Load(), repRet.Load(); cc == 0 || cc > ret {
+		c.Violation("return-before-close", fmt.Sprintf("chans.Replicate returned (tick %d) before its source was closed (close tick %d)", ret, cc), witness)
+		return
+	}
+	for d := range gots {
+		r.Eval(1)
+		if sig, what, _ := checkValues(gots[d], []int{n}, true); sig != "" {
+			witness["destination"], witness["received"] = d, showVals(gots[d])
+			c.Violation("replicate-"+sig, fmt.Sprintf("chans.Replicate of %d values to %d destinations read in rounds (%s), destination %d: %s", n, nd, disc, d, what), witness)
+			return
+		}
+	}
+	r.Count("chans.Replicate consumer discipline", disc, 1)
+	if prefill >= 2 {
+		r.Count("chans.Replicate consumer discipline", "source had >= 2 items buffered when Replicate started", 1)
+	}
+	r.Distinct(fmt.Sprintf("disc|%v|%d|%d|%d|%d", lockStep, nd, n, srcCap, prefill))
+}
